@@ -7,12 +7,14 @@ corr-M  : AssemblyCode::check_branches (Rust, public API) vs the extracted model
 corr-S  : on the implementation's own output: every displacement recomputed from the byte sizes;
           repaired vs original co-executed on the extracted 6502 semantics for all N/Z/C states
 """
+import re
+import os
 from lib.common import *
 from lib.asmcorr import *
 from lib.coexec import *
 
 LEVEL = 'proof'
-THEOREMS = ['C03_in_range', 'C03_repair_flow_preserved', 'C03_no_panic', 'C03_labels', 'C03_total']
+THEOREMS = re.findall(r'^Theorem (\w+)', open(os.path.join(COQ, 'Props', 'C03.v')).read(), re.M)
 
 
 def gen_flow_list(rng):
